@@ -11,6 +11,11 @@ def gen_save(w, r):
     ir = pick(r, irs)
     if ir is None:
         return None
+    if r.random() < w.cfg.get("p_write_fault", 0.08):
+        # the disk fills up / fails in the middle of this save
+        prev = w.disk.files.get(w.saved_as.get(ir, ""), b"")
+        k = r.choice([r.randrange(0, 8), 8 + r.randrange(0, 24), r.randrange(0, max(len(prev), 64))])
+        return {"op": "save_fault", "ir": ir, "path": r.choice(PATHS), "fail_after": k, "errno": r.choice(["ENOSPC", "EIO"])}
     return {"op": "save", "ir": ir, "path": r.choice(PATHS), "flavor": r.choice(["path", "stream"])}
 
 
